@@ -356,3 +356,31 @@ def c15h(ctx):
         ctx.check(ok, 'ThreadPool.%s:shortcut-iff-one-input' % m, 'the single-call shortcut is guarded by len(%s) == 1' % want, fn,
                   fail='the single-call shortcut is not guarded by the number of inputs (len(%s) == 1): several inputs whose first argument '
                        'tuple has one element yield a single result' % want)
+
+
+@rule('C15.i', floor=2)
+def c15i(ctx):
+    """the call terminates (also the next one on the same pool): every task that is taken out of the task queue is accounted for with
+    task_done() -- also the tasks a forced shutdown throws away -- so that task_queue.join() of the next run returns; the queues are
+    only manipulated through get / put / task_done, never through their internals"""
+    fn = ctx.fn(A + ':_consume_queue')
+    g = fn.cfg
+    gets = g.find(lambda x: isinstance(x, ast.Call) and isinstance(x.func, ast.Attribute) and x.func.attr in ('get', 'get_nowait'))
+    dones = [n for n, x in g.find(lambda x: isinstance(x, ast.Call) and isinstance(x.func, ast.Attribute) and x.func.attr == 'task_done')]
+    ok = bool(gets) and bool(dones)
+    for n, x in gets:
+        # after a successful get (non-exception edges) nothing but task_done leads on
+        ok = ok and not (g.reaches_avoiding(n, g.EXIT, avoid=dones, no_exc=True) and n not in dones) or n in dones
+    ctx.check(ok, '_consume_queue:every-removed-task-done', 'each item removed from the queue is followed by task_done()', fn,
+              fail='tasks are removed from the queue without task_done(): unfinished_tasks stays above zero and the next run on the pool blocks in join()')
+    internals = []
+    for q, f in sorted(ctx.repo.funcs.items()):
+        if not q.startswith(A + ':'):
+            continue
+        for x in f.walk():
+            if isinstance(x, ast.Attribute) and x.attr in ('mutex', 'unfinished_tasks', 'all_tasks_done', 'not_empty') or \
+                    (isinstance(x, ast.Attribute) and x.attr == 'queue' and isinstance(x.value, ast.Attribute) and x.value.attr.endswith('queue')) or \
+                    (isinstance(x, ast.Attribute) and x.attr == 'queue' and isinstance(x.value, ast.Name) and x.value.id == 'queue'):
+                internals.append((f, x))
+    ctx.check(not internals, 'async_:queues-through-their-interface', 'no function of the pool touches the internals of a Queue (deque, mutex, counters)', fn,
+              fail='%s manipulates the internals of a queue: the task accounting (unfinished_tasks) is bypassed' % (internals[0][0].short if internals else ''))
